@@ -118,6 +118,9 @@ export async function run(ctx) {
   const envs = Array.from({ length: NENV }, () => makeEnv(envRng, NAMES))
   // a fixed environment that distinguishes the classic precedence pitfalls
   envs[0] = { ...envs[0], a: 0, b: 5, c: 2, d: '', e: null, f: false }
+  // ... and one in which floating-point arithmetic is not associative: a grouping that is dropped changes the value
+  // (0.1 * (0.2 * 0.3) != (0.1 * 0.2) * 0.3, 1e200 * (1e200 * 1e-200) is finite, (1e200 * 1e200) * 1e-200 is not)
+  envs[1] = { ...envs[1], a: 0.1, b: 0.2, c: 0.3, d: 1e200, e: 1e-200, f: 7.7 }
   const printRng = new Rng(seed * 13 + shard)
 
   // reference pre-pass: drop expressions on which the reference throws in some environment
